@@ -88,7 +88,7 @@ ASSUMPTIONS = [
     "dask.get (synchronous scheduler) executes a materialised graph faithfully (C01)",
     "the shrinker only names the mechanism; the verdict comes from the unshrunk program",
 ]
-BUDGET = {"quick": 75, "thorough": 600}
+BUDGET = {"quick": 150, "thorough": 900}
 CASE_TIMEOUT = 240
 EXHAUSTIVE_SPACE = ("all 24 orderings of the 4 steps {x[['a','d']], x[x.a > 0], x.assign(a = x.d - x.a), x[x.a < 2]} x 3 "
                     "partitionings (1 partition; 3 partitions with known divisions; 4 row slices incl. an empty one with "
@@ -130,11 +130,32 @@ PARTS_EXH = (
 INDEXES = ("range", "range", "sorted", "dups", "unsorted")
 
 
+_TMP = None
+
+
 def shard_setup(tier, seed):
+    import tempfile
+
+    import dask
     from vf.gen import frames
 
     frames.setup()
     warnings.simplefilter("ignore")
+    # disk-based shuffles (sort_values / set_index / merge) leave *.partd directories behind: keep them in a
+    # run-private directory that shard_finish removes
+    global _TMP
+    _TMP = tempfile.mkdtemp(prefix="vf-c43-")
+    dask.config.set({"temporary-directory": _TMP})
+
+
+def shard_finish():
+    import shutil
+
+    global _TMP
+    if _TMP:
+        shutil.rmtree(_TMP, ignore_errors=True)
+    _TMP = None
+    return {}
 
 
 # --------------------------------------------------------------------------------------------
